@@ -615,7 +615,7 @@ func runCase(t *testing.T, r *lib.Run, idx int) {
 
 func TestC06(t *testing.T) {
 	r := lib.Start("C06", "exploration")
-	n := r.N(96, 3000)
+	n := r.N(64, 1000)
 	r.Cases(n, 0, func(idx int) { runCase(t, r, idx) })
 	r.Assume("the block source is prefix-consistent: every answer (block or latest header, also a deliberately stale one) lies on the source's canonical path at the logical time of the answer, and an orphaned block never becomes canonical again")
 	r.Assume("tampered answers keep Hash/ParentHash/Number of the genuine block (revertTask and isReverting compare these unverified header fields; a source lying about them is outside the property's model)")
